@@ -168,3 +168,11 @@ Print Assumptions c17_expired_connection_keeps_data.
 Example c17_expired_connection_keeps_data_old_condition_refuted : ~ expired_keeps_data_with remove_if_old.
 Proof. exact expired_keeps_data_old_refuted. Qed.
 Print Assumptions c17_expired_connection_keeps_data_old_condition_refuted.
+
+(* The channel scan every decision above (and the buffer-overflow path of prepare_connection_removal,
+   find_connection_without_borrows / _without_data_and_borrows, exercised by the harness family rrovf)
+   consumes is EXACT for any number of channels: (some channel has data, some channel has a borrow). *)
+Theorem c17_channel_scan_exact : forall chs,
+  scan chs = (existsb fst chs, existsb (fun c => Nat.ltb 0 (snd c)) chs).
+Proof. exact scan_spec. Qed.
+Print Assumptions c17_channel_scan_exact.
